@@ -34,6 +34,30 @@ def has_quant(e, _seen=None):
     return False
 
 
+def seq_eq_consequences(b):
+    """element-wise consequences of `a == b[off:off+ln]` facts (theorems of the sequence theory,
+    stated explicitly because E-matching uses them far better than the seq solver does)"""
+    out = []
+    stack = [b]
+    n = 0
+    while stack and n < 50:
+        n += 1
+        x = stack.pop()
+        if not z3.is_app(x):
+            continue
+        k = x.decl().kind()
+        if k == z3.Z3_OP_AND:
+            stack.extend(x.children())
+        elif k == z3.Z3_OP_EQ and x.arg(0).sort().kind() == z3.Z3_SEQ_SORT and not x.arg(0).sort().is_string():
+            for a, e in ((x.arg(0), x.arg(1)), (x.arg(1), x.arg(0))):
+                if z3.is_app(e) and e.decl().kind() == z3.Z3_OP_SEQ_EXTRACT:
+                    q = z3.Int("sk!%d" % (x.get_id() % 100000))
+                    out.append(z3.ForAll([q], z3.Implies(z3.And(q >= 0, q < z3.Length(a)), a[q] == e.arg(0)[e.arg(1) + q]),
+                                         patterns=[a[q]]))
+                    break
+    return out
+
+
 def nth(s, j):
     """element j of sequence term s (0 <= j < len assumed), peeling slices syntactically so that
     reads from `base[a:b]` become reads from `base`"""
@@ -44,6 +68,15 @@ def nth(s, j):
             s = s.arg(0)
         else:
             break
+    if z3.is_app(s) and s.decl().kind() == z3.Z3_OP_SEQ_CONCAT:
+        ch = s.children()
+        # trailing / leading unit elements:  (p ++ [x])[j] == x if j == len(p) else p[j]
+        if len(ch) >= 2 and z3.is_app(ch[-1]) and ch[-1].decl().kind() == z3.Z3_OP_SEQ_UNIT:
+            p = ch[0] if len(ch) == 2 else z3.Concat(*ch[:-1])
+            return z3.If(j == z3.Length(p), ch[-1].arg(0), nth(p, j))
+        if len(ch) >= 2 and z3.is_app(ch[0]) and ch[0].decl().kind() == z3.Z3_OP_SEQ_UNIT:
+            r = ch[1] if len(ch) == 2 else z3.Concat(*ch[1:])
+            return z3.If(j == 0, ch[0].arg(0), nth(r, j - 1))
     return s[zsimp(j)]
 
 
@@ -119,12 +152,15 @@ class Run:
 
     # ------------------------------------------------------------------ path condition
     def assume(self, b):
-        b = zsimp(b)
+        if not has_quant(b):
+            b = zsimp(b)
         if z3.is_true(b):
             return
         self.pc.append(b)
         if not has_quant(b):
             self.solver.add(b)
+            for extra in seq_eq_consequences(b):
+                self.pc.append(extra)
         if z3.is_false(b):
             raise PathEnd()
 
@@ -141,7 +177,7 @@ class Run:
     def resolve(self, e, depth=0):
         """contextual simplification: drop if-then-else branches that the path condition excludes"""
         e = zsimp(e)
-        if self.pure or depth > 6 or not (z3.is_app(e) and e.decl().kind() == z3.Z3_OP_ITE):
+        if depth > 6 or not (z3.is_app(e) and e.decl().kind() == z3.Z3_OP_ITE):
             return e
         c, a, b = e.arg(0), e.arg(1), e.arg(2)
         if not self.feasible(z3.Not(c)):
@@ -514,7 +550,12 @@ class Run:
         n = z3.Length(s.z)
         i = self.to_int(iv)
         self.fail_if(z3.Or(i < -n, i >= n), "IndexError", label)
-        j = self.resolve(self.norm_index(i, n))
+        if self.pure:
+            # clause indices are mathematical (0-based, no wrap-around) unless literally negative
+            isz = zsimp(i)
+            j = isz + n if (z3.is_int_value(isz) and isz.as_long() < 0) else isz
+        else:
+            j = self.resolve(self.norm_index(i, n))
         if s.t.kind == "str":
             return V(T.Str, z3.SubString(s.z, j, 1))
         if s.t.kind == "bytes":
